@@ -15,9 +15,11 @@ pub struct Style {
     pub quote_atoms: bool,
     /// no blank after commas inside argument lists
     pub tight_commas: bool,
+    /// parentheses also around a conjunction inside a disjunction (redundant: `,` binds tighter than `;`)
+    pub redundant_parens: bool,
 }
 
-pub const CANON: Style = Style { infix_compare: false, infix_arith: false, bare_zero_arity: false, quote_atoms: false, tight_commas: false };
+pub const CANON: Style = Style { infix_compare: false, infix_arith: false, bare_zero_arity: false, quote_atoms: false, tight_commas: false, redundant_parens: false };
 
 pub fn float_text(f: f64) -> String {
     // plain decimal notation with a decimal point (the parser has no exponent syntax)
@@ -57,7 +59,13 @@ pub fn goal(g: &Goal, st: &Style) -> String {
         Goal::BuiltIn(n, a) => format!("{}({})", n, args(a)),
         Goal::And(gs) | Goal::Or(gs) => {
             let s = if matches!(g, Goal::And(_)) { ", " } else { "; " };
-            gs.iter().map(|x| match x { Goal::And(_) | Goal::Or(_) => format!("({})", goal(x, st)), _ => goal(x, st) }).collect::<Vec<_>>().join(s)
+            let outer_is_or = matches!(g, Goal::Or(_));
+            gs.iter().map(|x| match x {
+                // a conjunction inside a disjunction needs no parentheses; every other nesting does
+                Goal::And(_) if outer_is_or && !st.redundant_parens => goal(x, st),
+                Goal::And(_) | Goal::Or(_) => format!("({})", goal(x, st)),
+                _ => goal(x, st),
+            }).collect::<Vec<_>>().join(s)
         }
         Goal::Not(x) => format!("not({})", goal(x, st)),
         Goal::Time(x) => format!("time({})", goal(x, st)),
